@@ -163,7 +163,8 @@ class Env:
             r = self.term(t["a"]).between(self.term(t["lo"]), self.term(t["hi"]))
         elif k == "call":
             args = [self.term(x) for x in t["args"]]
-            cls = {"SUM": fn.Sum, "MAX": fn.Max, "COUNT": fn.Count, "UPPER": fn.Upper, "COALESCE": fn.Coalesce, "ABS": fn.Abs}.get(t["f"])
+            cls = {"SUM": fn.Sum, "MAX": fn.Max, "COUNT": fn.Count, "UPPER": fn.Upper, "COALESCE": fn.Coalesce, "ABS": fn.Abs, "CONCAT": fn.Concat,
+                   "MIN": fn.Min, "AVG": fn.Avg, "LOWER": fn.Lower, "LENGTH": fn.Length, "SUBSTRING": fn.Substring, "CAST_INT": lambda x: fn.Cast(x, "INT")}.get(t["f"])
             if t["f"] == "COUNT" and not args:
                 args = ["*"]
             r = cls(*args) if cls else Function(t["f"], *args)
